@@ -1,10 +1,11 @@
 (* C19 -- UML class generation is complete, namespace-faithful and self-consistent.
    Only statements, each closed by [exact], each followed by Print Assumptions. *)
 From Coq Require Import String Ascii List Bool.
-From KV Require Import Lib.Str Model.Vpp Gen.UmlSrc Model.Uml Spec.UmlSpec Proofs.UmlProofs Proofs.UmlFiles
+From KV Require Import Lib.Str Model.Vpp Gen.UmlSrc Gen.UmlCsSrc Model.Uml Model.UmlCs Spec.UmlSpec Proofs.UmlProofs Proofs.UmlFiles
+                       Proofs.UmlUnique Proofs.UmlCsFiles Proofs.UmlCsOps Proofs.UmlCsPins Proofs.UmlCsTop
                        Model.UmlBlob Model.UmlWriter Gen.UmlBlobShipped Proofs.UmlBlobDefs Proofs.UmlBlobStruct Proofs.UmlBlobText
                        Proofs.UmlBlobTop Proofs.UmlBlobRound Proofs.UmlBlobVis Proofs.UmlBlobCompose Proofs.UmlBlobCalib Proofs.UmlBlobPins
-                       Model.UmlDomain Model.UmlSem Gen.UmlSemShipped Proofs.UmlSemExample Proofs.UmlSemCalib Proofs.UmlSemTop.
+                       Model.UmlDomain Model.UmlSem Gen.UmlSemShipped Proofs.UmlSemExample Proofs.UmlSemCalib Proofs.UmlSemTop Proofs.UmlCsFrom.
 Import ListNotations.
 Open Scope string_scope.
 
@@ -21,15 +22,37 @@ Theorem C19_decl_def : forall (d : cdiagram) (fuel : nat) (c : cls) (dl df : lis
 Proof. exact decl_def_count. Qed.
 Print Assumptions C19_decl_def.
 
-(* Multiplicity one: when the operations emitted for the source file are pairwise different (NoDup), every one of them is
-   defined exactly once -- and by C19_decl_def declared exactly once.
-   FULL STATEMENT (still false of the repaired code): "every declared operation has exactly one definition" without the NoDup
-   hypothesis; an operation declared in the class AND realised is emitted once since the fix (K-C19-1), but an operation
-   reached through two different interfaces, or drawn twice in one class, is still emitted twice on both sides. *)
-Theorem C19_decl_def_unique_partial : forall (eqb : entry -> entry -> bool) (df : list entry) (e : entry),
-  (forall a b, eqb a b = true <-> a = b) -> NoDup df -> In e df -> count (eqb e) df = 1.
-Proof. exact (fun eqb df e => count_one_of_nodup eqb df e). Qed.
-Print Assumptions C19_decl_def_unique_partial.
+(* Multiplicity one.  once_hyp d c (boolean, extracted, evaluated on every generated diagram) = "no operation is reached through
+   two paths": c declares no signature (name, parameter types, constness) twice, and among the operations of the pure virtual
+   interfaces GetOperationPerVisibility visits from c -- every realisation path counted (visited) -- no signature occurs twice.
+   Then EVERY operation emitted for c is defined exactly once in the source file and declared exactly once in the header
+   (signatures compared: two different interfaces demanding the same member function count as the same operation).
+   The known exception K-C19-1b is exactly the failure of the hypothesis (C19_twice_refuted: an interface reached through two
+   realisation paths: once_hyp = false and its operation is defined twice, both times as  void C::f() ). *)
+Theorem C19_decl_def_unique : forall (d : cdiagram) (c : cls) (df dl : list entry) (e : entry),
+  c_name c <> "" -> once_hyp d c = true -> wf_vis d = true -> forallb vis3 (c_ops c) = true ->
+  defs_of (List.length (classes d)) d c = Some df -> decls_of (List.length (classes d)) d c = Some dl -> In e df ->
+  count (fun x => key_eqb (sig_key (en_op x)) (sig_key (en_op e))) df = 1
+  /\ count (fun x => key_eqb (sig_key (en_op x)) (sig_key (en_op e))) dl = 1.
+Proof. exact once_unique_count. Qed.
+Print Assumptions C19_decl_def_unique.
+
+(* ... for every visibility section: no two emitted operations share a signature *)
+Theorem C19_ops_unique : forall (d : cdiagram) (vis : string) (c : cls) (l : list entry),
+  c_name c <> "" -> once_hyp d c = true -> ops_of (List.length (classes d)) d vis "" [] c = Some l ->
+  keys_nodup (map (fun e => sig_key (en_op e)) l) = true.
+Proof. exact once_unique. Qed.
+Print Assumptions C19_ops_unique.
+
+Example C19_twice_refuted :
+  once_hyp diamond diamond_c = false
+  /\ (exists df, defs_of 4 diamond diamond_c = Some df /\ count (fun x => key_eqb (sig_key (en_op x)) (sig_key diamond_f)) df = 2).
+Proof. exact diamond_twice. Qed.
+Print Assumptions C19_twice_refuted.
+
+Example C19_decl_def_unique_nonvacuous : once_hyp ok_diagram cyc_class = true /\ c_name cyc_class <> "".
+Proof. exact once_nonvacuous. Qed.
+Print Assumptions C19_decl_def_unique_nonvacuous.
 
 (* Realised interfaces: if class c realises the pure virtual interface p (an inheritance entry whose CLASS_TO_ID mentions c's
    id, flagged as realisation), every operation o of p whose visibility matches the section is emitted for c -- defined as
@@ -130,6 +153,120 @@ Proof. exact namespace_balanced. Qed.
 Print Assumptions C19_namespace_balanced.
 
 (* ====================================================================================================================
+   THE C# BACK END (umlgen with LanguageCsharp; Model/UmlCs.v).  There is no C# compiler in this environment: nothing below
+   says the output is accepted by one; the harness reads the generated .cs files with a tokenizer (brace balance, namespace
+   chain, keyword and name of the type, the methods of the type with modifiers / body) as the independent oracle.
+   The generator class is shared with C++; the template directory is classdiagram_templates/C# (one .cs template per kind,
+   Gen/UmlSrc.v template_files_cs) plus the Project template; LanguageCsharp.GetOperationPerVisibility is the same recursion as
+   LanguageCPP's on the C# view of the diagram (cs_view: constness is no part of a C# method; parameter types carry ref / out
+   instead of const); C19_languages_source_shape pins the branch conditions, calls and templates of both back ends. *)
+
+(* Files: under files_hyp_cs (well-formed names, no namespace starting with a separator, distinct paths -- evaluated on every
+   generated input) the code model has exactly: ONE .cs file per generated element (class, interface = abstract class or
+   Interface stereotype, enumeration, struct; nothing for enum+struct and for classes / interfaces generated elsewhere), in the
+   folder chain of its namespace when namespace folders are requested, and the project files written after them -- one per
+   namespace, in its folder, named after the FULLY QUALIFIED namespace (A/B/A::B.csproj: K-C19-9) with namespace folders, else
+   one named after the diagram.  The C++ template directory has no Project template: C19_files is the whole C++ file set. *)
+Theorem C19_files_cs : forall (nsf : bool) (dname : string) (d : cdiagram),
+  files_hyp_cs nsf dname d = true -> files_all template_files_cs nsf dname d = expected_files_cs nsf dname d.
+Proof. exact files_all_expected_cs. Qed.
+Print Assumptions C19_files_cs.
+
+Theorem C19_files_cs_meaning : forall c, c_autogen c = false -> c_enum c && c_struct c = false -> spec_exts_cs c = [".cs"].
+Proof. exact spec_exts_cs_meaning. Qed.
+Print Assumptions C19_files_cs_meaning.
+
+Theorem C19_files_cpp_no_project : forall nsf dname d, files_all template_files nsf dname d = files_of template_files nsf d.
+Proof. exact files_all_cpp. Qed.
+Print Assumptions C19_files_cpp_no_project.
+
+Example C19_files_cs_nonvacuous :
+  files_hyp_cs true "D" ok_diagram = true /\ files_hyp_cs false "D" ok_diagram = true
+  /\ map fst (expected_files_cs true "D" ok_diagram) = ["N/CImpl.cs"; "N/ILoop.cs"; "N/IBase.cs"; "N/N.csproj"].
+Proof. exact files_cs_nonvacuous. Qed.
+Print Assumptions C19_files_cs_nonvacuous.
+
+(* Realised interfaces: every operation o of a pure virtual interface p that class c realises is emitted for c in the section
+   of its visibility -- as a method of c WITH A BODY; when o is drawn abstract (virtual) and not static its text is
+   visibility override ret name(params with defaults) (C19_realised_rendering_cs; only the keyword is rewritten since the repair of
+   K-C19-8: C19_override_keyword_only_cs), otherwise it carries no override -- unless c declares an operation of the same C#
+   signature (name, parameter types with ref / out) itself. *)
+Theorem C19_realised_cs : forall (d : cdiagram) (fuel : nat) (vis : string) (c : cls) (i : inh) (p : cls) (o : oper) (l : list entry),
+  In i (inhs d) -> contains (c_id c) (i_to i) = true -> i_real i = true ->
+  find_class (classes d) (i_from i) = Some p -> c_pure p = true -> In o (c_ops p) -> vis_match vis o = true -> c_name c <> "" ->
+  existsb (key_eqb (sig_key (cs_oper o))) (declared_of (cs_cls c)) = false ->
+  ops_of_cs (S (S fuel)) d vis c = Some l ->
+  In {| en_class := c_name c; en_owner := c_name p; en_owner_pure := true; en_realised := true; en_op := cs_oper o |} l.
+Proof. exact realised_emitted_cs. Qed.
+Print Assumptions C19_realised_cs.
+
+Theorem C19_realised_rendering_cs : forall cn pn o,
+  let e := {| en_class := cn; en_owner := pn; en_owner_pure := true; en_realised := true; en_op := o |} in
+  cs_has_body e = true /\ cs_line e = cs_head e
+  /\ (o_virtual o = true -> o_static o = false ->
+      cs_head e = lower (o_vis o) ++ " override " ++ ret_of e ++ " " ++ o_name o ++ "(" ++ param_string true (o_params o) ++ ")").
+Proof. exact realised_rendering_cs. Qed.
+Print Assumptions C19_realised_rendering_cs.
+
+(* an own operation: visibility [virtual | static] ret name(params); interfaces end it with ';' (defaults kept), classes give it a body *)
+Theorem C19_own_rendering_cs : forall cn o pure,
+  let e := {| en_class := cn; en_owner := cn; en_owner_pure := pure; en_realised := false; en_op := o |} in
+  cs_has_body e = negb pure
+  /\ cs_line e = lower (o_vis o) ++ " " ++ lstrip ((if o_virtual o && negb (o_static o) then "virtual " else if o_static o then "static " else "")
+                                                   ++ ret_of e ++ " " ++ o_name o ++ "(" ++ param_string pure (o_params o) ++ ")") ++ (if pure then ";" else "").
+Proof. exact own_rendering_cs. Qed.
+Print Assumptions C19_own_rendering_cs.
+
+Example C19_override_keyword_only_cs :
+  cs_line {| en_class := "CImpl"; en_owner := "IFace"; en_owner_pure := true; en_realised := true;
+             en_op := {| o_name := "virtualize"; o_vis := "public"; o_ret := "void";
+                         o_params := [{| p_type := "int"; p_name := "_virtualAddress"; p_default := ""; p_ext := "" |}];
+                         o_virtual := true; o_static := false; o_const := false |} |}
+  = "public override void virtualize(int _virtualAddress)".
+Proof. exact override_keyword_only_cs. Qed.
+Print Assumptions C19_override_keyword_only_cs.
+
+(* "Declared iff defined" has no header / source split in C#.  Its C# reading: the three visibility sections of the generated
+   type (members_cs) together hold exactly the operations ONE call with visibility 'all' emits, each as often -- on acyclic,
+   closed diagrams both return with fuel = number of classes -- and under once_hyp (on the C# view) each exactly once. *)
+Theorem C19_once_cs : forall (d : cdiagram) (c : cls) (P : entry -> bool),
+  acyclic d = true -> closed d = true -> wf_vis d = true -> In c (classes d) ->
+  exists ms al, members_cs (List.length (classes d)) d c = Some ms /\ all_cs (List.length (classes d)) d c = Some al /\ count P ms = count P al.
+Proof. exact once_cs. Qed.
+Print Assumptions C19_once_cs.
+
+Theorem C19_unique_cs : forall (d : cdiagram) (c : cls) (ms al : list entry) (e : entry),
+  c_name c <> "" -> once_hyp (cs_view d) (cs_cls c) = true -> wf_vis d = true -> forallb vis3 (c_ops c) = true ->
+  all_cs (List.length (classes d)) d c = Some al -> members_cs (List.length (classes d)) d c = Some ms -> In e al ->
+  count (same_op e) al = 1 /\ count (same_op e) ms = 1.
+Proof. exact once_unique_cs. Qed.
+Print Assumptions C19_unique_cs.
+
+(* Namespace wrap: LanguageCsharp's nested-namespace functions are, statement for statement, LanguageCPP's (pinned), so
+   ns_begin ++ body ++ ns_end is the properly nested chain  namespace c1 { namespace c2 { ... } }  in the .cs files too; every
+   C# template puts its type and its operation sections between the two tags, once (C19_templates_wrapped_cs). *)
+Theorem C19_namespace_balanced_cs : ns_functions_cs = ns_functions_cpp /\ forall ns body,
+  ns_begin ns = lstrip_sp (ns_open_raw ns) /\ ns_end ns = lstrip (ns_close_raw ns) ++ " // end namespace " ++ ns
+  /\ ns_open_raw ns = String SP (ns_begin ns) /\ ns_close_raw ns = String SP (lstrip (ns_close_raw ns))
+  /\ ns_open_raw ns ++ body ++ ns_close_raw ns = wrap (split2 ":" ":" ns) body
+  /\ join "::" (split2 ":" ":" ns) = ns.
+Proof. exact namespace_balanced_cs. Qed.
+Print Assumptions C19_namespace_balanced_cs.
+
+Theorem C19_templates_wrapped_cs :
+  map (fun r => (fst r, fst (snd r))) template_files_cs_layout
+  = [("ClassTemplate.cs", true); ("EnumTemplate.cs", true); ("InterfaceTemplate.cs", true); ("Project.csproj", false); ("StructTemplate.cs", true)].
+Proof. exact templates_wrapped_cs. Qed.
+Print Assumptions C19_templates_wrapped_cs.
+
+(* Both back ends still have the shape the models were written against: the branch conditions, loops, DeclareFunction /
+   recursive calls and signature of GetOperationPerVisibility, DeclareFunction, ParameterString (equal in both), the namespace
+   functions (equal in both), the template layouts and the project-file block of umlgen (Gen/UmlCsSrc.v is regenerated). *)
+Theorem C19_languages_source_shape : languages_expected.
+Proof. exact language_pins. Qed.
+Print Assumptions C19_languages_source_shape.
+
+(* ====================================================================================================================
    THE INPUT ADAPTOR: project rows -> the class diagram the theorems above speak about (Model/UmlBlob.v: adaptor).
    W : wdiagram = a class diagram as the ASSUMED Visual Paradigm writer lays it out (Model/UmlWriter.v: structured blobs of
    fields, reference lists and owned elements, in any order); encode_cdiagram W = the project holding only W's rows;
@@ -137,7 +274,9 @@ Print Assumptions C19_namespace_balanced.
    elements, any order) arbitrary. *)
 
 (* The text layer is transparent.  For EVERY structured blob n (Model/UmlWriter.v) in the domain
-     wf_node n    keys, ids, names, reference ids: plain text (printable ASCII without = < > ; \ double quote ( ) ', no blank at the
+     wf_node n    element NAMES: any printable text without double quote, backslash, apostrophe and ';' (= < > ( ) , : are ordinary
+                  characters: operator<, operator(), Const: ... -- the reader takes a quoted name as it is: K-C19-7 repaired);
+                  keys, ids, reference ids: plain text (printable ASCII without = < > ; \ double quote ( ) ', no blank at the
                   ends); values: plain text, quoted or not, commas allowed; layout strings made of line breaks, tabs, blanks, ( ) , ;
                   FREE TEXT properties (IRaw: e.g. documentation=<an HTML page with a CSS block>): anything whose quoted texts are
                   closed and that has no ';' and no brace OUTSIDE its quoted texts -- braces, ';', '=', ':', apostrophes INSIDE
@@ -162,9 +301,8 @@ Example C19_adaptor_brace_refuted :
 Proof. exact parse_top_refuted. Qed.
 Print Assumptions C19_adaptor_brace_refuted.
 
-(* ... and for the blob of a ROW whose element NAME holds colons (wf_top: as wf_node, the name in the top-level header
-   unrestricted apart from being plain text): the reader cuts the header  id:name:type  at every colon and keeps the first three
-   pieces -- top_pv_c says which name / type entries result; everything else is read as before. *)
+(* (the variant stated before the repair of K-C19-7 for rows whose NAME holds colons: wf_top / top_pv_c coincide with wf_node / top_pv
+   now that the reader cuts the header at the colons outside quotes) *)
 Theorem C19_adaptor_text_transparent_colon : forall n : wnode,
   wf_top n = true -> nbq_node n = true -> quote_ok (print_node n) = true ->
   parse_blob (py_str_bytes (print_node n)) = Some (top_pv_c n).
@@ -225,17 +363,18 @@ Print Assumptions C19_realised_from_project.
 (* Calibration and non-vacuity on the shipped project (Gen/UmlBlobShipped.v, regenerated from kojen/test/blob.xml on every
    run): the assumed writer reproduces every row the two class diagrams draw or refer to, byte for byte, between the rows of
    the other diagrams; the reader model loads both (10 and 20 classes, 7 inheritance entries each), also from the projects
-   holding only their own rows; ALL 39 and 49 of their blobs lie in the domain of the text theorem (38 and 40 before the reader
-   was made quote-aware: the others hold an HTML documentation with a CSS block; 48 of 49 without the colon variant: one
-   association has a NAME with a colon); on every one of them the reader model returns the dictionary the theorem states
-   (computed). *)
+   holding only their own rows; ALL 39 and 49 of their blobs lie in the domain of the text theorem (38 and 41 of them hold no
+   free text with braces or apostrophes -- the others have an HTML documentation with a CSS block, inside the domain since the
+   reader is quote-aware; one association has a NAME with a colon, inside the domain since headers are cut at the colons outside
+   quotes only); on every one of them the reader model returns the dictionary
+   the theorem states (computed). *)
 Theorem C19_adaptor_calibration :
   (forallb (chosts shipped_cdb) shipped_W = true /\ map wd_name shipped_W = ["ProtocolStack"; "TestClassDiagram"])
   /\ (map (fun W => (List.length (all_nodes W), List.length (filter in_text_domain_c (all_nodes W)), List.length (filter in_text_domain (all_nodes W)))) shipped_W
-      = [(39, 39, 39); (49, 49, 48)]
-      /\ flat_map (fun W => map (fun n => (node_id n, node_name n)) (filter (fun n => negb (in_text_domain n)) (all_nodes W))) shipped_W
+      = [(39, 39, 39); (49, 49, 49)]
+      /\ flat_map (fun W => map (fun n => (node_id n, node_name n)) (filter (fun n => negb (no_char ":" (name_text (node_name n)))) (all_nodes W))) shipped_W
          = [("OUDfaI6GAqAA8xe8", Some "Const: This should appear in constructor")])
-  /\ map (fun W => List.length (filter (fun n => wf_node n && nb_node n && no_char SQ (print_node n)) (all_nodes W))) shipped_W = [38; 40]
+  /\ map (fun W => List.length (filter (fun n => wf_node n && nb_node n && no_char SQ (print_node n)) (all_nodes W))) shipped_W = [38; 41]
   /\ forallb (fun W => forallb (fun n => match parse_blob (py_str_bytes (print_node n)) with Some v => pv_eqb v (top_pv_c n) | None => false end)
                                 (filter in_text_domain_c (all_nodes W))) shipped_W = true.
 Proof. exact (conj calib_cwriter (conj calib_domain (conj calib_domain_before calib_parse))). Qed.
@@ -247,13 +386,15 @@ Example C19_adaptor_nonvacuous :
 Proof. exact one_class_ok. Qed.
 Print Assumptions C19_adaptor_nonvacuous.
 
-(* Outside the domain (known finding K-C19-7: mass_replace deletes = < > ; ( ) and double quotes from every name and value,
-   also after the K-C19-6 repair): an operation drawn as operator< is read back as operator. *)
-Theorem C19_adaptor_name_refuted :
-  op_names (adaptor (encode_cdiagram (one_class_W "operator<")) "D") = Some [["operator"]]
-  /\ forallb (fun se => wf_node (we_node (snd se))) (wd_drawn (one_class_W "operator<")) = false.
-Proof. exact name_with_separator_refuted. Qed.
-Print Assumptions C19_adaptor_name_refuted.
+(* Names with the characters the reader used to delete (K-C19-7, repaired): an operation drawn as operator<, operator(),
+   operator== or a:b is read back under that name, and such blobs lie in the text domain (headok: a NAME is any printable text
+   without double quote, backslash, apostrophe and ';').  What remains of the deletions concerns VALUES (K-C19-10). *)
+Theorem C19_adaptor_operator_names :
+  forallb (fun nm => forallb (fun se => wf_node (we_node (snd se))) (wd_drawn (one_class_W nm))) ["operator<"; "operator()"; "operator=="; "a:b"] = true
+  /\ map (fun nm => op_names (adaptor (encode_cdiagram (one_class_W nm)) "D")) ["operator<"; "operator()"; "operator=="; "a:b"]
+     = [Some [["operator<"]]; Some [["operator()"]]; Some [["operator=="]]; Some [["a:b"]]].
+Proof. exact operator_names_ok. Qed.
+Print Assumptions C19_adaptor_operator_names.
 
 (* The adaptor's source still has the shape the model was written against: every string literal (keys, type names, codes,
    stereotype names) of the modelled functions, in source order (Gen/UmlBlobSrc.v is regenerated on every run). *)
@@ -278,10 +419,12 @@ Print Assumptions C19_adaptor_source_shape.
    the shapes of the selected diagram.
    Association objects are specified by rassoc_of: type from the aggregation kind, the defaults of an end without multiplicity
    depend on the association type known when that end is read (written order), as Association.ParseAssociation does.
-   Domain sdiagram_ok (boolean, extracted, evaluated by the harness on every generated diagram): names / ids plain, brace-free,
-   without ',' and apostrophe, no blank at the ends; VALUES (defaults, initial values, multiplicities, modifiers, documentation)
-   likewise but ',' allowed (nullptr, nullptr) unless nothing but commas is left; ids and element names without ':' (the name of an
-   association may hold colons); noise keys not among the
+   Domain sdiagram_ok (boolean, extracted, evaluated by the harness on every generated diagram): ids and the names of classes,
+   packages and referenced elements plain, brace-free, without ',' ':' and apostrophe, no blank at the ends; the NAMES of
+   operations, attributes, parameters, literals and associations: any printable text without double quote, backslash,
+   apostrophe, ';' and braces (operator<, operator(), Get:Set -- K-C19-7 repaired); VALUES (defaults, initial values,
+   multiplicities, modifiers, documentation) plain but ',' allowed (nullptr, nullptr) unless nothing but commas is left (the
+   characters = < > ; ( ) double quote in a value are still deleted by the reader: K-C19-10); noise keys not among the
    keys the reader looks for; inert properties: in the text domain, their keys none of the keys the reader looks up in that kind
    of element and containing none of the words it scans keys for, owned elements not of a type the reader would take for a
    member (inert_ok, per kind of element); str(bytes) of every row delimits with apostrophes (quote_ok); no property key written
@@ -353,3 +496,39 @@ Theorem C19_realised_from_diagram : forall (D : sdiagram) (d : db) fuel vis dcl 
   /\ In {| en_class := c_name k; en_owner := c_name p; en_owner_pure := true; en_realised := true; en_op := o |} l.
 Proof. exact realised_from_diagram. Qed.
 Print Assumptions C19_realised_from_diagram.
+
+(* ... and for the C# back end: cdiagram_cs_of D = the diagram as LanguageCsharp's helpers render the objects read (to_cdiagram_cs:
+   qualified names with dots, no pointer / reference modifiers, List<> for vectors, T[] for arrays, ref / out parameter prefixes;
+   tied to the real helpers at function level and on every project the harness synthesises) *)
+Theorem C19_adaptor_cs_roundtrip : forall (D : sdiagram) (d : db), sdiagram_ok D = true -> chosts d (tree_of D) = true ->
+  adaptor_cs d (sd_name D) = Some (cdiagram_cs_of D).
+Proof. exact adaptor_cs_hosted. Qed.
+Print Assumptions C19_adaptor_cs_roundtrip.
+
+Theorem C19_files_cs_from_diagram : forall (D : sdiagram) (d : db) (nsf : bool) (dname : string),
+  sdiagram_ok D = true -> chosts d (tree_of D) = true -> files_hyp_cs nsf dname (cdiagram_cs_of D) = true ->
+  adaptor_cs d (sd_name D) = Some (cdiagram_cs_of D)
+  /\ files_all template_files_cs nsf dname (cdiagram_cs_of D) = expected_files_cs nsf dname (cdiagram_cs_of D).
+Proof. exact files_cs_from_diagram. Qed.
+Print Assumptions C19_files_cs_from_diagram.
+
+Theorem C19_once_cs_from_diagram : forall (D : sdiagram) (d : db) (k : cls) (P : entry -> bool),
+  sdiagram_ok D = true -> chosts d (tree_of D) = true ->
+  acyclic (cdiagram_cs_of D) = true -> closed (cdiagram_cs_of D) = true -> In k (classes (cdiagram_cs_of D)) ->
+  adaptor_cs d (sd_name D) = Some (cdiagram_cs_of D)
+  /\ exists ms al, members_cs (List.length (classes (cdiagram_cs_of D))) (cdiagram_cs_of D) k = Some ms
+                   /\ all_cs (List.length (classes (cdiagram_cs_of D))) (cdiagram_cs_of D) k = Some al /\ count P ms = count P al.
+Proof. exact once_cs_from_diagram. Qed.
+Print Assumptions C19_once_cs_from_diagram.
+
+Theorem C19_realised_cs_from_diagram : forall (D : sdiagram) (d : db) fuel vis (k : cls) (i : inh) (p : cls) (o : oper) l,
+  sdiagram_ok D = true -> chosts d (tree_of D) = true ->
+  In i (inhs (cdiagram_cs_of D)) -> contains (c_id k) (i_to i) = true -> i_real i = true ->
+  find_class (classes (cdiagram_cs_of D)) (i_from i) = Some p -> c_pure p = true ->
+  In o (c_ops p) -> vis_match vis o = true -> c_name k <> "" ->
+  existsb (key_eqb (sig_key (cs_oper o))) (declared_of (cs_cls k)) = false ->
+  ops_of_cs (S (S fuel)) (cdiagram_cs_of D) vis k = Some l ->
+  adaptor_cs d (sd_name D) = Some (cdiagram_cs_of D)
+  /\ In {| en_class := c_name k; en_owner := c_name p; en_owner_pure := true; en_realised := true; en_op := cs_oper o |} l.
+Proof. exact realised_cs_from_diagram. Qed.
+Print Assumptions C19_realised_cs_from_diagram.
